@@ -157,6 +157,11 @@ def gen_spec(rng, idx):
     kind = str(rng.choice(["electric", "electric", "mech_elec", "hybrid"]))
     n_swb = int(rng.choice([1, 2, 3], p=[0.35, 0.45, 0.2]))
     swbs = list(range(1, n_swb + 1))
+    if rng.random() < 0.3:          # switchboard numbers need not be 1..n: the chain runs over the sorted numbers
+        swbs = sorted(int(x) for x in rng.choice(np.arange(1, 10), size=n_swb, replace=False))
+        core.axis("switchboard_numbers", "not 1..n")
+    else:
+        core.axis("switchboard_numbers", "1..n")
     el = []
     for s in swbs:
         for i in range(int(rng.integers(1, 4))):
@@ -172,7 +177,7 @@ def gen_spec(rng, idx):
             st.update(name=f"ess{s}", swb=s)
             el.append(st)
     if not any(c["kind"] in ("other_load", "drive") for c in el):
-        el.append({"kind": "other_load", "name": "load_x", "swb": 1, "rated": 400.0, "curve": [0.97]})
+        el.append({"kind": "other_load", "name": "load_x", "swb": swbs[0], "rated": 400.0, "curve": [0.97]})
     spec = {"type": "electric", "name": "sys", "electric": el, "bus_ties": [[i, i + 1] for i in swbs[:-1]]}
     if kind != "electric":
         mech, ptis, ids = plants.gen_mech_components(rng, n_lines=int(rng.choice([1, 2, 2])), pti_swb=int(rng.choice(swbs)), force_pti=(kind == "hybrid"))
@@ -181,14 +186,14 @@ def gen_spec(rng, idx):
             c["shaft_line"] = ids_map[c["shaft_line"]]
         fixed = []
         for p in ptis:
-            p2 = plants.gen_serial_spec(rng, "pti_pto", p["name"], int(rng.choice(swbs)), p["rated"], n_stages=int(rng.choice([2, 3])), shaft_line=ids_map[p["shaft_line"]])
+            p2 = plants.gen_serial_spec(rng, "pti_pto", p["name"], int(rng.choice(swbs)), p["rated"], n_stages=int(rng.choice([1, 2, 3])), shaft_line=ids_map[p["shaft_line"]])
             fixed.append(p2)
         if kind == "mech_elec":
             fixed = []
         spec.update(type="hybrid" if kind == "hybrid" else "mech_elec", lines=sorted(ids_map.values()))
         spec["electric"] = [c for c in el if c["kind"] != "drive"] + fixed
         if not any(c["kind"] == "other_load" for c in spec["electric"]):
-            spec["electric"].append({"kind": "other_load", "name": "load_y", "swb": 1, "rated": 400.0, "curve": [0.97]})
+            spec["electric"].append({"kind": "other_load", "name": "load_y", "swb": swbs[0], "rated": 400.0, "curve": [0.97]})
         spec["mechanical"] = mech + [{"kind": "pti_pto_ref", "name": p["name"]} for p in fixed]
     if rng.random() < (0.7 if kind == "hybrid" else 0.35):       # user-style names: "Genset 1" on every switchboard, "PTI/PTO 1" on every shaft line
         plants.relabel(spec)
@@ -264,10 +269,8 @@ def run_case(ctx, case, model=True):
     try:
         s2 = to_fe.convert_proto_propulsion_system_to_feems(m1)
     except Exception as e:
-        ids = sorted({c["swb"] for c in spec["electric"]})
+        # (switchboard numbers other than 1..n are read back since repo d4aeffd: a refusal is a failure whatever the numbers)
         tag = "to-feems-raises-" + core.error_class(e)
-        if ids != list(range(1, len(ids) + 1)):
-            tag = "breakers-and-switchboard-numbers-not-in-message"
         ctx.fail("predicate", tag, f"{type(e).__name__}: {e}", where)
         return False
     # (a) structure
@@ -377,7 +380,8 @@ def replay(data):
 # constructors are {"ctor": {args}}, pairs are arrays, Option is null or the value).
 
 THEOREMS = ["stages_roundtrip", "putStages_keeps", "roundtrip_ecomp", "roundtrip_mcomp", "roundtrip", "ecomp_norm_rep", "ecomp_norm_idem",
-            "second_pass_identity", "curve_norm_behaviour", "norm_keeps_attributes", "enums", "three_converters_lose_one"]
+            "second_pass_identity", "curve_norm_behaviour", "norm_keeps_attributes", "enums", "three_converters_lose_one",
+            "chain_members", "chain_length", "chain_legacy_missing"]
 
 from ..core import enc  # noqa: E402
 
@@ -594,6 +598,18 @@ def lean_correspondence(ctx, case, plant, m1, s2, where):
         # the model's class; the round trip itself is still judged on the implementation (structure, second pass, behaviour)
         ctx.count("lean_correspondence_skipped", "pti-pto-names-shared")
         return
+    # the breakers of the plant read back: the model's chain over the switchboard numbers of the message, in declaration order
+    es2 = s2 if isinstance(s2, ElectricPowerSystem) else getattr(s2, "electric_system", None)
+    if es2 is not None:
+        try:
+            ids = [int(swb.switchboard_id) for swb in m1.electric_system.switchboards]
+            chain = ctx.model.call("proto.chain", ids=ids)
+            real_chain = [[int(x) for x in b.switchboard_ids] for b in es2.bus_tie_breakers]
+            ctx.count("lean_chain_cases")
+            if chain != real_chain:
+                ctx.fail("correspondence", "breaker-chain", f"model chain {chain} vs breakers of the plant read back {real_chain} (switchboards {ids})", where)
+        except core.ModelReject as e:
+            ctx.fail("correspondence", "breaker-chain-rejected", str(e), where)
     sys0 = sys_json(plant.system, kind, spec)             # the original, with single values as values
     ctx.count("lean_correspondence_cases")
     ctx.count("single_value_curves_in_original", inc=json.dumps(sys0).count('"value"'))
